@@ -38,11 +38,13 @@ CHECKS = {
         text="Coq theorem C04_serialized_table: for every history of add_sample / add_sample_same_stack_zero_cpu (and add-only counter) calls, serialization does not "
              "panic or underflow, the rows read back by running sums are nondecreasing in time and are a permutation of the history's effective entries "
              "(each keeps time, stack, weight, CPU delta), and total weight/CPU equal the sums added; C04_checker_sound/_accepts_model tie the boolean checker to that statement. "
-             "Tied to fxprof-processed-profile by running the Profile API + serde_json on generated histories and evaluating the checker in Coq. "
+             "Tied to fxprof-processed-profile in both ways: (a) tools/xlate_st.py translates SampleTable::new / add_sample / modify_last_sample statement by statement into Gallina over the struct's own "
+             "fields on every run (Generated/SampleTableGen.v) and C04_translation_history / _add / _modify prove that, read row by row, the translated columns after any history of calls are the model's entries, with the same "
+             "panics, flag and last timestamp (the pre-fix code fails this proof); (b) by running the Profile API + serde_json on generated histories and evaluating the checker in Coq. "
              "The original code violated this (F-C04); repaired by a fix: commit, the witnesses stay in corpus/C04.",
-        note="Trusted: Coq kernel; serde_json read-back in harness h_fxprof; sort_unstable modelled as insertion sort with ties compared as multisets; "
+        note="Trusted: Coq kernel; tools/xlate_st.py (its reading of the Rust subset: Vec::push as append, *v.last_mut().unwrap() as an update of the last element that panics on an empty vector, indexing as nth_error, short-circuit &&; thread.rs and the Serialize impl are transcribed, not translated); serde_json read-back in harness h_fxprof; sort_unstable modelled as insertion sort with ties compared as multisets; "
              "i32 weight sums assumed in range; float ms->ns exact below 2^50.",
-        technique="Coq proof (table invariant by induction over the call history; sorted-permutation serialization) + differential correspondence run with a verified checker evaluated by vm_compute",
+        technique="Coq proof (table invariant by induction over the call history; sorted-permutation serialization) over a model whose table operations are proved equal to a translation of the source regenerated on every run + differential correspondence run with a verified checker evaluated by vm_compute",
         design="4/C04"),
     "C14": dict(
         text="Coq theorems C14_main (for every raw stack, any depth, any markers, with/without the extra label frame: < 500 unchanged; otherwise 200 root frames, "
@@ -79,10 +81,11 @@ CHECKS = {
              "C02_fork_inherits, C02_exec_clears, C02_rel_start_offset / C02_rel_start_segments (relative start = page offset, or SVMA of the file offset minus the image base), "
              "C02_call_chain_order, C02_e2e_attribution (composition for time-ordered recordings). The bias computation underneath the relative start is tied by translation: tools/xlate_vb.py re-emits "
              "SvmaFileRange::encompasses_file_range / is_encompassed_by_file_range and compute_vma_bias_impl (samply/src/linux_shared/svma_file_range.rs) as Gallina on every run and "
-             "C02_vma_bias_translation_sound / _total prove the translation equal to the model's vma_bias wherever a debug build does not panic, with the exact no-panic bounds. Tied end to end: generated recordings (mappings added, overlapped, replaced, inherited across fork, "
+             "C02_vma_bias_translation_sound / _total prove the translation equal to the model's vma_bias wherever a debug build does not panic, with the exact no-panic bounds; the replay of the queued operations is translated too "
+             "(tools/xlate_ho.py: next_op_if_at_or_before, LibMappingOp::apply_to arm by arm, the regular-library loop of process_ops; C02_op_replay_translation_agrees / C02_apply_op_translation_agrees). Tied end to end: generated recordings (mappings added, overlapped, replaced, inherited across fork, "
              "cleared by exec, stamped before / exactly at / after samples; call chains with leaf/return addresses at range boundaries, unmapped addresses, all context markers; absent binaries and "
              "an ELF fixture and a generated shared object with packed segments at arbitrary load addresses) -> perf.data -> samply import -> resolved frames, decided by a model-free specification in Coq.",
-        note="Trusted: Coq kernel; tools/xlate_vb.py (its reading of the Rust subset: checked u64 + and -, wrapping_sub, iter().find = first match, short-circuit ||); harness h_samply + JSON read-back; C11's model of LibMappings; perf.data writer; the ELF program-header reader in vlib/c02e.py (segments are an input of the model). "
+        note="Trusted: Coq kernel; tools/xlate_vb.py (its reading of the Rust subset: checked u64 + and -, wrapping_sub, iter().find = first match, short-circuit ||); tools/xlate_ho.py (Peekable peek / next as head / tail, while let as recursion over the queue); harness h_samply + JSON read-back; C11's model of LibMappings; perf.data writer; the ELF program-header reader in vlib/c02e.py (segments are an input of the model). "
              "Not modelled: jitdump / perf-map side tables, simpleperf symbol tables (case 1), vdso (case 3), PE mappings, DWARF-unwound stack fragments, --fold-recursive-prefix.",
         technique="Coq proof (queue replay = filter by timestamp on ordered queues; composition lemma; refinement to C11's history specification; the bias computation proved equal to a translation of the source regenerated on every run) + differential correspondence run evaluated by vm_compute",
         design="4/C01,C17,C02"),
